@@ -14,10 +14,13 @@
 (*              several chunk_sizes per scale; no tool generates them).     *)
 (*              Contents are whole-scale values, so the abstract state does *)
 (*              not change.  Harness action, not in the MC alphabet.        *)
-(*   Obstruct   ENVIRONMENT: a regular file occupies the path of the LAST     *)
-(*              scale's directory of d, so that its chunks / shards cannot  *)
-(*              be created.  A command that cannot write must not exit 0.   *)
-(*              Harness action, not in the MC alphabet.                     *)
+(*   Obstruct   ENVIRONMENT: something else occupies a path the tools must   *)
+(*              create in d - m = "last": a regular file where the LAST     *)
+(*              scale's directory goes; "first": a directory where one      *)
+(*              chunk file / one shard file of the FIRST scale goes;        *)
+(*              "info": a directory named info.  A command that cannot      *)
+(*              write must not exit 0.  Harness action, not in the MC       *)
+(*              alphabet.                                                   *)
 (*   HandInfo   the user writes d/info_fullres.json by hand (script-usage   *)
 (*              step 1: there is no --generate-info for slice stacks); no   *)
 (*              transform.json.  Performed by the harness, not a tool.      *)
@@ -131,7 +134,7 @@ EmptyDir == [fullres |-> "absent",      \* "absent" | "nosh" | "s110" (sharding 
              info |-> NoInfo,
              chunks |-> [i \in Scales |-> "absent"],
              mis |-> {},                \* scales stored in a layout the info does not declare
-             blocked |-> FALSE]         \* the last scale's directory cannot be created
+             blocked |-> {}]            \* scales (0: the info file) whose files cannot be created
 
 Resolve(m, type) == IF m = "auto" THEN (IF type = "image" THEN "average" ELSE "stride") ELSE m
 Down(m, c) == "D" \o m \o "(" \o c \o ")"
@@ -152,18 +155,18 @@ RunGenInfo(c, D, cf) ==
            IF cf.perfect THEN 0 ELSE 4)
 
 RunGenScales(c, D, cf) ==
-  IF D[c.src].fullres = "absent" \/ D[c.d].info.n # 0 THEN Res(D, 1)
+  IF D[c.src].fullres = "absent" \/ D[c.d].info.n # 0 \/ 0 \in D[c.d].blocked THEN Res(D, 1)
   ELSE Res([D EXCEPT ![c.d].info = [type |-> c.type, enc |-> c.enc,
                                     n |-> NScales(c.max, cf), sh |-> D[c.src].fullres]], 0)
 
 RunVol(c, D) ==
-  IF D[c.d].info.n = 0 \/ (D[c.d].blocked /\ D[c.d].info.n = 1) THEN Res(D, 1)
+  IF D[c.d].info.n = 0 \/ 1 \in D[c.d].blocked THEN Res(D, 1)
   ELSE Res([D EXCEPT ![c.d].chunks[1] = "map", ![c.d].mis = @ \ {1}], 0)
 
 \* same refusal / exit rules as Vol; the content is the re-oriented stack
 SliceContent(code) == "S" \o code
 RunSlices(c, D) ==
-  IF D[c.d].info.n = 0 \/ (D[c.d].blocked /\ D[c.d].info.n = 1) THEN Res(D, 1)
+  IF D[c.d].info.n = 0 \/ 1 \in D[c.d].blocked THEN Res(D, 1)
   ELSE Res([D EXCEPT ![c.d].chunks[1] = SliceContent(c.code), ![c.d].mis = @ \ {1}], 0)
 
 RunHandInfo(c, D) ==
@@ -175,9 +178,11 @@ RunCompute(c, D) ==
   IF ds.info.n = 0 THEN Res(D, 1)
   ELSE IF ds.info.n = 1 THEN Res(D, 0)
   ELSE IF ~Readable(ds, 1) THEN Res(D, 1)
-  ELSE IF ds.blocked            \* every scale but the last is computed, then the write fails
-    THEN Res([D EXCEPT ![c.d].chunks = Pyramid(ds.chunks, ds.info.n - 1, Resolve(c.m, ds.info.type)),
-                       ![c.d].mis = @ \ (2..(ds.info.n - 1))], 1)
+  ELSE IF ds.blocked \cap (2..ds.info.n) # {}   \* the scales before the first blocked one are computed
+    THEN LET k == CHOOSE i \in ds.blocked \cap (2..ds.info.n) :
+                     \A j \in ds.blocked \cap (2..ds.info.n) : i <= j
+         IN Res([D EXCEPT ![c.d].chunks = Pyramid(ds.chunks, k - 1, Resolve(c.m, ds.info.type)),
+                          ![c.d].mis = @ \ (2..(k - 1))], 1)
   ELSE Res([D EXCEPT ![c.d].chunks = Pyramid(ds.chunks, ds.info.n, Resolve(c.m, ds.info.type)),
                      ![c.d].mis = @ \ (2..ds.info.n)], 0)
 
@@ -186,11 +191,11 @@ RunConvert(c, D) ==
       t == D[c.d]
   IN
   IF s.info.n = 0 THEN Res(D, 1)
-  ELSE IF c.copy = "copy" /\ t.info.n # 0 THEN Res(D, 1)
+  ELSE IF c.copy = "copy" /\ (t.info.n # 0 \/ 0 \in t.blocked) THEN Res(D, 1)
   ELSE IF c.copy = "keep" /\ t.info.n = 0 THEN Res(D, 1)
   ELSE
     LET di == IF c.copy = "copy" THEN s.info ELSE t.info
-        ok(i) == i <= s.info.n /\ Readable(s, i) /\ ~(t.blocked /\ i = di.n)
+        ok(i) == i <= s.info.n /\ Readable(s, i) /\ i \notin t.blocked
         bad == {i \in 1..di.n : ~ok(i)}
         \* scales are walked coarsest first; the walk stops at the first bad one
         stop == IF bad = {} THEN 0 ELSE CHOOSE i \in bad : \A j \in bad : j <= i
@@ -204,7 +209,7 @@ RunConvert(c, D) ==
 RunStats(c, D) == IF D[c.d].info.n = 0 THEN Res(D, 1) ELSE Res(D, 0)
 
 RunAllInOne(c, D, cf) ==
-  IF D[c.d].info.n # 0 THEN Res(D, 1)
+  IF D[c.d].info.n # 0 \/ 0 \in D[c.d].blocked THEN Res(D, 1)
   ELSE LET k == NScales("all", cf)
            m == Resolve(IF AioForwardsMethod THEN c.m ELSE "auto", c.type)
            base == [D[c.d].chunks EXCEPT ![1] = "map"]
@@ -217,6 +222,14 @@ RunAllInOne(c, D, cf) ==
 RunEdit(c, D) ==
   IF D[c.d].info.n = 0 \/ \E i \in Scales : D[c.d].chunks[i] # "absent" THEN Res(D, 1)
   ELSE Res([D EXCEPT ![c.d].info.sh = IF c.sh = "keep" THEN @ ELSE c.sh], 0)
+
+RunObstruct(c, D) ==
+  LET ds == D[c.d] IN
+  IF c.m = "info"
+    THEN (IF ds.info.n # 0 THEN Res(D, 1) ELSE Res([D EXCEPT ![c.d].blocked = @ \cup {0}], 0))
+  ELSE LET i == IF c.m = "first" THEN 1 ELSE ds.info.n IN
+       IF ds.info.n = 0 \/ ds.chunks[i] # "absent" THEN Res(D, 1)
+       ELSE Res([D EXCEPT ![c.d].blocked = @ \cup {i}], 0)
 
 \* THE design function: result of running command c in directory state D for
 \* input class cf
@@ -231,8 +244,7 @@ Run(c, D, cf) ==
     [] c.op = "Edit"      -> RunEdit(c, D)
     [] c.op = "Slices"    -> RunSlices(c, D)
     [] c.op = "HandInfo"  -> RunHandInfo(c, D)
-    [] c.op = "Obstruct"  -> IF D[c.d].info.n = 0 \/ D[c.d].chunks[D[c.d].info.n] # "absent" THEN Res(D, 1)
-                             ELSE Res([D EXCEPT ![c.d].blocked = TRUE], 0)
+    [] c.op = "Obstruct"  -> RunObstruct(c, D)
     [] c.op = "Rechunk"   -> IF D[c.d].info.n = 0 \/ D[c.d].info.sh # "nosh" THEN Res(D, 1) ELSE Res(D, 0)
 
 Succ(e) == e = 0
